@@ -2,14 +2,16 @@ CONSTANTS
   MaxLabel = 63
   MaxName = 255
   MaxRefs = 16
+  Count = 1
+  Stride = 41868361
+  Offset = 1
+  NS1 = 12
+  MaxOps = 3
   MaxSuffixes = 32
   MaxSuffixLen = 127
   PtrLimit = 16384
   ImplBug = "none"
-  Count = 1
-  Stride = 41868361
-  Offset = 1
-  NS1 = 3000
-INIT MCInit
-NEXT MCNext
+  ObjDefect = "none"
+SPECIFICATION MCSpec
+INVARIANTS NeverOptRefused
 CHECK_DEADLOCK FALSE
